@@ -79,6 +79,7 @@ void Exec::after_lib_call(const std::string &what) {
 		}
 	}
 	if (world.log_null) { violate("C20", "null-message:" + what, "log handler was called with a NULL message", false); world.log_null = 0; }
+	if (world.log_fragments) { violate("C20", "fragment:" + what.substr(0, what.find(':')), strf("the log handler received %ld message(s) that are a single character or punctuation only, e.g. [%s]: a diagnostic delivered in pieces", world.log_fragments, world.log_fragment_first.c_str()), false); world.log_fragments = 0; }
 }
 
 // ------------------------------------------------------------------ building a library object from a model
